@@ -1,8 +1,14 @@
 // C09 harness: drives the loser tree classes of tlx/container/loser_tree.hpp through the caller protocol of the
 // model (coq/C09/LoserTree.v [drive], coq/C09/Spec.v [drive_g]) and prints the sequence of min_source() values.
 //
-// Case line:  <class>[:<elem>:<cmp>:<via>[:<store>]] <sentinel> [o=<i>,<i>,...] <seq> <seq> ...   with <seq> = "-" (empty) or "k,k,k"
-//   o=...   = order of the insert_start calls (a permutation of the player indices; default 0, 1, 2, ...)
+// Case line:  <class>[:<elem>:<cmp>:<via>[:<store>[:<extra>]]] <sentinel> [o=<i>,<i>,...] <seq> <seq> ...   with <seq> = "-" (empty) or "k,k,k"
+//   o=...   = order of the insert_start calls (every player index at least once; default 0, 1, 2, ...).  A player listed more
+//             than once is RE-REGISTERED: guarded classes register it as exhausted (nullptr, sup) on all but its last
+//             occurrence and with its key on the last one; unguarded classes register its key every time.
+//   <extra> = decimal bit mask: 1 = init() is called twice in a row; 2 = guarded classes: after the run (no live player left)
+//             delete_min_insert(nullptr, true) + min_source() are called three more times (must not crash; results unspecified)
+//   class letter W (unstable unguarded classes only) = V, except that "beats the sentinel" means "is not greater than it" (as for
+//             the stable classes) instead of "is strictly less": the regime of a real minimum equivalent to the padding key
 //   <class> = <P|C><G|U|V><S|N>   pointer/copy, guarded/unguarded/unguarded-any-keys, stable/unstable
 //             (V: keys may exceed the sentinel, the tree is consulted only while some current key beats it, as
 //              multiway_merge_loser_tree_combined does)
@@ -101,6 +107,14 @@ struct Stateful {
 
 //! order of the insert_start calls of the current case
 static std::vector<size_t> g_order;
+//! <extra> bit mask of the current case
+static int g_extra = 0;
+
+//! is position n of g_order the last registration of that player?
+static bool last_registration(size_t n) {
+    for (size_t m = n + 1; m < g_order.size(); ++m) if (g_order[m] == g_order[n]) return false;
+    return true;
+}
 
 // ------------------------------------------------------------------------------------------------ key storage
 template <typename T>
@@ -129,9 +143,9 @@ static void drive(LT& lt, const std::vector<std::vector<T> >& seqs, bool guarded
     const Source k = static_cast<Source>(seqs.size());
     std::vector<size_t> pos(k, 0);
     Feed<T> feed(store, seqs);
-    for (Source n = 0; n < k; ++n) {
+    for (size_t n = 0; n < g_order.size(); ++n) {
         const Source i = static_cast<Source>(g_order[n]);
-        if (seqs[i].empty())
+        if (seqs[i].empty() || (guarded && !last_registration(n)))
             lt.insert_start(nullptr, i, true);
         else {
             lt.insert_start(feed.key(i, 0), i, false);
@@ -139,6 +153,7 @@ static void drive(LT& lt, const std::vector<std::vector<T> >& seqs, bool guarded
         }
     }
     lt.init();
+    if (g_extra & 1) lt.init();
     for (;;) {
         Source s = lt.min_source();
         if (!out.empty()) out += ' ';
@@ -154,6 +169,14 @@ static void drive(LT& lt, const std::vector<std::vector<T> >& seqs, bool guarded
         else
             break;                                        // unguarded: a player must never run empty
     }
+    if (guarded && (g_extra & 2)) {
+        // more replace operations than there are keys: no live player is left, the answers are unspecified
+        for (int n = 0; n < 3; ++n) {
+            lt.delete_min_insert(nullptr, true);
+            volatile Source s = lt.min_source();
+            (void)s;
+        }
+    }
 }
 
 // unguarded tree, arbitrary keys: stop as soon as no current key beats the sentinel
@@ -164,12 +187,13 @@ static void drive_general(LT& lt, const std::vector<std::vector<T> >& seqs, cons
     const Source k = static_cast<Source>(seqs.size());
     std::vector<size_t> pos(k, 0);
     Feed<T> feed(store, seqs);
-    for (Source n = 0; n < k; ++n) {
+    for (size_t n = 0; n < g_order.size(); ++n) {
         const Source i = static_cast<Source>(g_order[n]);
         lt.insert_start(feed.key(i, 0), i, false);
         feed.done();
     }
     lt.init();
+    if (g_extra & 1) lt.init();
     for (;;) {
         bool any = false;
         for (Source i = 0; i < k; ++i) {
@@ -193,7 +217,7 @@ static void drive_general(LT& lt, const std::vector<std::vector<T> >& seqs, cons
 }
 
 struct Flavor {
-    char mode;       // G, U, V
+    char mode;       // G, U, V, W
     bool stable;
     bool pass_cmp;   // false: rely on the constructor's default comparator argument
     char via;        // d, s, m
@@ -240,10 +264,10 @@ static void run_unguarded(const std::vector<std::vector<T> >& seqs, const T& sen
     const Source k = static_cast<Source>(seqs.size());
     if (f.pass_cmp) {
         LT lt(k, sentinel, cmp);
-        if (f.mode == 'V') drive_general(lt, seqs, sentinel, cmp, f.stable, f.store, out); else drive(lt, seqs, false, f.store, out);
+        if (f.mode == 'V' || f.mode == 'W') drive_general(lt, seqs, sentinel, cmp, f.stable || f.mode == 'W', f.store, out); else drive(lt, seqs, false, f.store, out);
     } else {
         LT lt(k, sentinel);
-        if (f.mode == 'V') drive_general(lt, seqs, sentinel, cmp, f.stable, f.store, out); else drive(lt, seqs, false, f.store, out);
+        if (f.mode == 'V' || f.mode == 'W') drive_general(lt, seqs, sentinel, cmp, f.stable || f.mode == 'W', f.store, out); else drive(lt, seqs, false, f.store, out);
     }
 }
 
@@ -313,7 +337,7 @@ int main(int argc, char** argv) {
             std::string p;
             while (std::getline(hs, p, ':')) parts.push_back(p);
         }
-        if (parts.empty() || parts[0].size() != 3 || (parts.size() != 1 && parts.size() != 4 && parts.size() != 5)) {
+        if (parts.empty() || parts[0].size() != 3 || (parts.size() != 1 && parts.size() != 4 && parts.size() != 5 && parts.size() != 6)) {
             std::cout << "?" << std::endl;
             continue;
         }
@@ -321,7 +345,8 @@ int main(int argc, char** argv) {
         const std::string elem = parts.size() >= 4 ? parts[1] : "e8";
         const std::string cmp = parts.size() >= 4 ? parts[2] : "lt";
         const std::string via = parts.size() >= 4 ? parts[3] : "d";
-        const std::string store = parts.size() == 5 ? parts[4] : "p";
+        const std::string store = parts.size() >= 5 ? parts[4] : "p";
+        g_extra = parts.size() == 6 ? std::atoi(parts[5].c_str()) : 0;
         std::vector<std::vector<long> > keys;
         std::vector<size_t> order;
         while (ls >> tok) {
@@ -343,15 +368,16 @@ int main(int argc, char** argv) {
             for (size_t i = 0; i < keys.size(); ++i) order.push_back(i);
         {
             std::vector<int> seen(keys.size(), 0);
-            bool ok = order.size() == keys.size();
-            for (size_t i : order) { if (i >= keys.size() || seen[i]++) ok = false; }
+            bool ok = true;
+            for (size_t i : order) { if (i >= keys.size()) ok = false; else seen[i]++; }
+            for (int c : seen) if (c == 0) ok = false;
             if (!ok) { std::cout << "?order" << std::endl; continue; }
         }
         g_order = order;
         std::string out;
         const bool P = vs[0] == 'P';
         Flavor f{ vs[1], vs[2] == 'S', true, via.empty() ? 'd' : via[0], store.empty() ? 'p' : store[0] };
-        if (keys.empty() || (vs[0] != 'P' && vs[0] != 'C') || (f.mode != 'G' && f.mode != 'U' && f.mode != 'V') ||
+        if (keys.empty() || (vs[0] != 'P' && vs[0] != 'C') || (f.mode != 'G' && f.mode != 'U' && f.mode != 'V' && f.mode != 'W') || (f.mode == 'W' && f.stable) ||
             (vs[2] != 'S' && vs[2] != 'N') || (f.via != 'd' && f.via != 's' && f.via != 'm') ||
             (f.via == 'm' && f.mode != 'G') || (f.store != 'p' && f.store != 'l' && f.store != 't') ||
             (f.store == 't' && P)) {
